@@ -75,7 +75,7 @@ def rule_g(F):
             if rule.id == rid:
                 for r in rule.fn(F):
                     from cao.rules import R
-                    out.append(R("C04.G", r["key"].replace(rid.replace(".", "/"), "C04/G/" + rid[:3]), r["status"], r["loc"], r["msg"], **r["data"]))
+                    out.append(R("C04.G", "C04/G/" + r["key"], r["status"], r["loc"], r["msg"], **r["data"]))
     return out
 
 
@@ -266,6 +266,7 @@ def rule_s(F):
 RULES = [
     Rule("C04.A", rule_a, 4, "script arithmetic cannot panic"),
     Rule("C04.B", rule_b, 1, "budget cannot underflow (shared with C03.Z)"),
+    Rule("C04.G", rule_g, 3, "insertion paths keep a free slot (C12.G/C13.G): probes terminate"),
     Rule("C04.R", rule_r, 1, "recursion over script data is bounded"),
     Rule("C04.S", rule_s, 20, "stack exhaustion is an error value in instruction handlers"),
 ]
